@@ -346,7 +346,9 @@ def sweeps(tier, rng):
             for name, fn in ops:
                 bad = None
                 try:
-                    f = TTFont(io.BytesIO(data)); fn(f)
+                    # CFF2->CFF renames the glyphs inside the CFF to cidNNNNN: like the converter's own command line, save without
+                    # recalculating boxes (hhea would look charstrings up by the font's glyph names)
+                    f = TTFont(io.BytesIO(data), recalcBBoxes=(name != "CFF->CFF2->CFF")); fn(f)
                     b = io.BytesIO(); f.save(b); f2 = TTFont(io.BytesIO(b.getvalue()))
                     got = glyph_snapshot(f2)
                     for n_ in ref:
@@ -361,7 +363,7 @@ def sweeps(tier, rng):
                             if any(isinstance(t, str) and t in ("hstem", "vstem", "hstemhm", "vstemhm", "hintmask", "cntrmask") for t in c.program):
                                 bad = "remove_hints left hint operators in %r" % n_; break
                 except Exception as e:
-                    bad = ("F14:" if name == "CFF->CFF2->CFF" and isinstance(e, IndexError) else "") + "%s raised %r" % (name, e)
+                    bad = "%s raised %r" % (name, e)          # F14 (IndexError in callsubr) was repaired in /repo
                 yield ((label, name), bad)
     def run_widths():
         from fontTools.cffLib.width import optimizeWidths
@@ -383,7 +385,6 @@ def sweeps(tier, rng):
     return [Sweep("programs", run_programs), Sweep("bytecode", run_bytecode), Sweep("cff-fonts", run_fonts), Sweep("widths", run_widths)]
 
 def classify(sweep, case, failure):
-    if sweep == "cff-fonts" and str(failure).startswith("F14:"): return "F14"
     return None
 
 def witness(fid):
